@@ -13,6 +13,7 @@ import (
 	"runtime"
 	"strings"
 	"sync/atomic"
+	"time"
 )
 
 // Sched is one run's yield policy. All fields are set by the driver before
@@ -35,6 +36,11 @@ type Sched struct {
 	Sites                   map[string]uint64 // per-site hit count (only if Count)
 	Count                   bool
 	passed                  map[string]uint64
+	// busy-wait detection (see Y)
+	recent [4]string
+	rpos   int
+	streak int
+	Spins  uint64
 }
 
 type Rule struct {
@@ -49,6 +55,8 @@ type Rule struct {
 }
 
 var cur atomic.Value // *Sched
+
+var _ = time.Millisecond
 
 func Install(s *Sched) {
 	if s != nil {
@@ -133,6 +141,37 @@ func Y(site string) {
 			}
 			return
 		}
+	}
+	// Nothing preempts in the simulation, so a goroutine that busy-waits
+	// through yield sites (e.g. a select loop on an already closed channel
+	// waiting for another goroutine to finish) would spin forever on the one P.
+	// Real Go preempts such loops; here every 256th site visit lets the others run.
+	if s.Calls&255 == 0 {
+		runtime.Gosched()
+	}
+	// A goroutine that busy-waits for something that needs simulated TIME to
+	// pass (a timer, a deadline) would livelock the discrete-event clock: time
+	// only advances when nothing is runnable. Thousands of consecutive visits
+	// to the same few sites are such a spin; it is slowed down to one pass per
+	// simulated millisecond, as if it ran at finite speed.
+	hit := false
+	for i := range s.recent {
+		if s.recent[i] == site {
+			hit = true
+			break
+		}
+	}
+	if hit {
+		s.streak++
+		if s.streak > 4000 {
+			s.streak -= 16
+			s.Spins++
+			time.Sleep(time.Millisecond)
+		}
+	} else {
+		s.recent[s.rpos&3] = site
+		s.rpos++
+		s.streak = 0
 	}
 	if s.Prob == 0 {
 		return
